@@ -440,7 +440,7 @@ def c05(tier, seed):
                 ["stop", "run", "stop", "stop", "reset", "step", "stop"]]
     out_it, dl = internalchecks.internal_campaign(rep, "C05", it_cfgs, it_hists, 2 if quick else 6, seed, POLICIES)
     for o in dl:
-        rep.violation(dict(kind="deadlock", history="internal"), dict(kind="lifecycle_internal", run=o), text=f"{o['id']}: logical deadlock under the coarse gate: {o['detail'][:300]}")
+        rep.violation(dict(kind="deadlock", history="internal"), dict(kind="lifecycle_internal", run=o), text=f"{o['id']}: logical deadlock / lifecycle exception under the coarse gate: {o['detail'][-300:]}")
     if not quick:
         internalchecks.mc_rexasync(rep, "MC_RexAsync_A2.cfg", common.NPROC)
         internalchecks.mc_rexasync(rep, "MC_RexAsync_B2.cfg", common.NPROC)
